@@ -52,16 +52,22 @@ pub fn run(args: &Args) {
         report.finish(args)
     }
     let use_ids: Vec<u8> = if thorough { (0..corp.len() as u8).collect() } else { vec![0, 1, 2, 3, 4, 7, 8] };
-    let mut all: Vec<Mutant> = vec![];
     let mut validated = 0u64;
     let mut sizes = vec![];
+    let mut t = Acc::default();
+    let mut viol = vec![];
+    let mut groups: std::collections::BTreeMap<String, usize> = Default::default();
+    let mut index_base = 0usize;
+    // one corpus proof at a time: the mutants of all proofs together do not fit in memory in the thorough tier
     for e in corp.iter().filter(|e| use_ids.contains(&e.id)) {
         let bytes = honest_bytes(e);
         let tree = r8_tree(e, &bytes);
         validated += 1;
         sizes.push(json!({"corpus": e.id, "shape": e.shape.name, "cfg": e.cfg.short(), "bytes": bytes.len()}));
-        all.extend(mutants_of(e, &bytes, &tree, thorough));
-    }
+        let all: Vec<Mutant> = mutants_of(e, &bytes, &tree, thorough);
+        for m in &all {
+            *groups.entry(m.group.to_string()).or_default() += 1;
+        }
     let accs: Vec<Acc> = pool::run(
         &cfg,
         all.len(),
@@ -109,8 +115,6 @@ pub fn run(args: &Args) {
             }
         },
     );
-    let mut t = Acc::default();
-    let mut viol = vec![];
     for a in accs {
         t.total += a.total;
         t.decode_err += a.decode_err;
@@ -118,10 +122,12 @@ pub fn run(args: &Args) {
         t.accepted_same += a.accepted_same;
         t.panicked += a.panicked;
         t.died += a.died;
-        viol.extend(a.viol);
+        viol.extend(a.viol.into_iter().map(|(i, v)| (index_base + i, v)));
+    }
+        index_base += all.len();
     }
     viol.sort_by_key(|(i, _)| *i);
-    let by_group = |g: &str| all.iter().filter(|m| m.group == g).count();
+    let by_group = |g: &str| groups.get(g).copied().unwrap_or(0);
     report.part(
         "single faults of every corpus proof (bit flips, byte boundary values, truncations, insertions, deletions, trailing bytes; every numeric field to its boundary set, over-long size encodings, lying length/count prefixes, item dropped/duplicated/swapped/appended with enclosing prefixes repaired)",
         t.total,
